@@ -477,3 +477,23 @@ Proof.
   intros H. destruct (fused_is_pipe_l str B f d texts W tr s H) as [Hr _].
   unfold absu, full, enum in Hr. rewrite (scan1_ok_prefix texts 0). exact Hr.
 Qed.
+
+Lemma first_err_text_ok_prefix texts : forall pos,
+  nth_error texts (length (ok_prefix str texts)) = Some None ->
+  first_err_text pos texts = Some (pos + length (ok_prefix str texts)).
+Proof.
+  induction texts as [|[x|] r IH]; intros pos H; cbn [ok_prefix length nth_error first_err_text] in *.
+  - discriminate.
+  - rewrite (IH (S pos) H). f_equal. lia.
+  - rewrite Nat.add_0_r. reflexivity.
+Qed.
+
+(** after the repair iter_err, as the FIRST scan writes it, is nothing or the first Err text *)
+Lemma fused_err_is_first_model (B : Type) (f : nat * str -> B) (d : nat * str) texts W tr s :
+  urun str B f d true (uinit str B texts W) tr = Some s ->
+  u_err str B s = None \/ (exists k, first_err_text 0 texts = Some k /\ u_err str B s = Some k).
+Proof.
+  intros H. destruct (fused_err_is_first_l str B f d texts W tr s H) as [E|[E1 E2]]; [left; exact E|].
+  right. exists (length (ok_prefix str texts)). split; [|exact E1].
+  rewrite (first_err_text_ok_prefix texts 0 E2). reflexivity.
+Qed.
